@@ -3,6 +3,7 @@ import MosnVerif.Lemmas.EDF
 import MosnVerif.Lemmas.EdfHeap
 import MosnVerif.Lemmas.LB
 import MosnVerif.Lemmas.EdfConc
+import MosnVerif.Lemmas.WrrHealth
 /-!
 # C06 — configured weights are honoured exactly (property theorems only)
 -/
@@ -411,5 +412,130 @@ theorem unlock_around_callback_breaks_bound :
   ⟨by decide, by decide +kernel, by decide +kernel, by decide +kernel, by decide, by decide +kernel⟩
 
 end Concurrent
+
+/-! ## weighted round robin when host health CHANGES after the balancer was built
+
+`EdfLoadBalancer.refresh` builds the scheduler once per host-set update; a health flip builds nothing. `Gen/EdfRefresh` is
+the regenerated `refresh`: which hosts its `hosts.Range` callback adds (as a function of `host.Health()` at build time),
+whether an empty scheduler is dropped, the two early returns. `Model/WrrHealth.lean`: `newStateH ws hp0 rr0 pre` is the
+balancer built over configured weights `ws` while the hosts' health is `hp0`; `runEv` runs health flips (`Ev.flip`) and
+lookups (`Ev.look`, the C05 model function `LB.wrrChoose` under the health pattern of that moment); a lookup is recorded
+(`Rec`) with the health pattern it saw, its scheduler picks and its result; it was *served by the scheduler*
+(`Rec.weighted`) iff its last pick was a healthy host; `served recs i` counts the lookups of a window that served `i`
+that way (the round-robin fallback after `total` unhealthy picks in a row is the designed degradation and not counted). -/
+section HealthChanges
+open MosnVerif.Model MosnVerif.Model.EDF MosnVerif.Model.LB MosnVerif.Model.WrrHealth MosnVerif.Gen
+
+/-- **refresh_adds_every_host**: for every weight vector and EVERY build-time health pattern the regenerated `refresh`
+leaves the balancer in the state `LB.newState` (scheduler over ALL hosts of the set; none for < 2 hosts or equal
+weights): its Range adds host `0, 1, …, n-1`, whatever their health when the balancer is built. -/
+theorem refresh_adds_every_host (ws : List Nat) (hp0 : List Bool) (rr0 : Nat) (pre : List (Option Nat)) :
+    newStateH ws hp0 rr0 pre = newState .wrr (mkH ws hp0) rr0 pre ∧ addedHosts ws hp0 = List.range ws.length := by
+  refine ⟨newStateH_eq_newState ws hp0 rr0 pre, ?_⟩
+  unfold addedHosts
+  rw [rangeAdd_regenerated, pattern_length]
+  exact (initWith_facts _ (wrrWeight_pos ws) _).2.2
+
+/-- **wrr_picks_ignore_health**: for every weight vector with a scheduler (≥ 2 hosts, not all weights equal), every
+build-time health pattern and every sequence of health flips and lookups: the scheduler picks made by the lookups
+(skipped unhealthy ones and served ones), concatenated, are ONE run of the scheduler over all hosts — health cuts the
+run into lookups, it never changes it. -/
+theorem wrr_picks_ignore_health (ws : List Nat) (h2 : 2 ≤ ws.length) (hneq : wsEqual ws = false) (hp0 : List Bool)
+    (rr0 : Nat) (pre : List (Option Nat)) (evs : List Ev) :
+    ∃ H, ((refresh (wrrWeight ws) ws.length pre).run (wrrWeight ws) H).1 =
+      allPicks (runEv ws hp0 (newStateH ws hp0 rr0 pre) evs).1 := by
+  obtain ⟨H, s', _, _, h, _⟩ := runEv_facts ws h2 evs hp0 _ _ (newStateH_sched ws h2 hneq hp0 rr0 pre) (refresh_ok ws pre)
+  exact ⟨H, by rw [h]⟩
+
+/-- **wrr_serves_all_healthy**: for every host set with a weighted balancer, every build-time health pattern `hp0`, every
+sequence `before` of health flips and lookups after the build, and every window `window` of further flips and lookups:
+a host that is healthy at every lookup of the window is served by a weighted pick within the window, as soon as the
+window holds `serveWindow ws i = ⌊Σw/wᵢ⌋ + n + 1` lookups — in particular a host that was failing its health check when
+the balancer was built and recovers later gets its weighted picks. -/
+theorem wrr_serves_all_healthy (ws : List Nat) (h2 : 2 ≤ ws.length) (hneq : wsEqual ws = false) (hp0 : List Bool)
+    (rr0 : Nat) (pre : List (Option Nat)) (before window : List Ev) (i : Nat) (hi : i < ws.length) :
+    let mid := (runEv ws hp0 (newStateH ws hp0 rr0 pre) before).2
+    let recs := (runEv ws mid.1 mid.2 window).1
+    (∀ r ∈ recs, r.healthyAt i = true) → serveWindow ws i ≤ recs.length →
+      ∃ r ∈ recs, r.weighted = true ∧ r.result = some i := by
+  intro mid recs hh hw
+  have he : expectSched ws = true := (expectSched_iff ws).mpr ⟨h2, hneq⟩
+  obtain ⟨_, s1, hs1, ok1⟩ := runEv_isRun ws h2 before hp0 _ _ (newStateH_sched ws h2 hneq hp0 rr0 pre) (refresh_ok ws pre)
+  obtain ⟨run2, _⟩ := runEv_isRun ws h2 window mid.1 mid.2 s1 hs1 ok1
+  have hpos := isRun_serves ws he s1 ok1 recs run2 i hi (by simpa [healthyThroughout] using hh) hw
+  unfold served at hpos
+  obtain ⟨r, hr, hp⟩ := List.countP_pos_iff.mp hpos
+  simp only [Bool.and_eq_true, beq_iff_eq] at hp
+  exact ⟨r, hr, hp.1, hp.2⟩
+
+/-- **wrr_health_window_bound**: same quantification; for two hosts `i`, `j` that are healthy at every lookup of the
+window, the numbers of lookups of the window that served them (by weighted picks) satisfy
+`nᵢ/wᵢ − nⱼ/wⱼ ≤ 1/wᵢ + 1/wⱼ` for the effective weights (swap `i`, `j` for the absolute value) — from every reachable
+scheduler state, whatever the other hosts' health does meanwhile. -/
+theorem wrr_health_window_bound (ws : List Nat) (h2 : 2 ≤ ws.length) (hneq : wsEqual ws = false) (hp0 : List Bool)
+    (rr0 : Nat) (pre : List (Option Nat)) (before window : List Ev) (i j : Nat) (hi : i < ws.length) (hj : j < ws.length) :
+    let mid := (runEv ws hp0 (newStateH ws hp0 rr0 pre) before).2
+    let recs := (runEv ws mid.1 mid.2 window).1
+    (∀ r ∈ recs, r.healthyAt i = true ∧ r.healthyAt j = true) →
+      ((served recs i : Nat) : Rat) / wrrWeight ws i - ((served recs j : Nat) : Rat) / wrrWeight ws j
+        ≤ 1 / wrrWeight ws i + 1 / wrrWeight ws j := by
+  intro mid recs hh
+  obtain ⟨_, s1, hs1, ok1⟩ := runEv_isRun ws h2 before hp0 _ _ (newStateH_sched ws h2 hneq hp0 rr0 pre) (refresh_ok ws pre)
+  obtain ⟨run2, _⟩ := runEv_isRun ws h2 window mid.1 mid.2 s1 hs1 ok1
+  exact isRun_pair_rat ws s1 ok1 recs run2 i j hi hj
+    (by simpa [healthyThroughout] using fun r hr => (hh r hr).1)
+    (by simpa [healthyThroughout] using fun r hr => (hh r hr).2)
+
+/-- **wrr_health_lookup_good** (C05 under health changes): every lookup of every sequence of health flips and lookups
+after the build returns a member of the host set, a healthy one when some host is healthy at that moment, and no host
+only when none is — for every weight vector and build-time health pattern. -/
+theorem wrr_health_lookup_good (ws : List Nat) (hp0 : List Bool) (rr0 : Nat) (pre : List (Option Nat)) (evs : List Ev) :
+    ∀ r ∈ (runEv ws hp0 (newStateH ws hp0 rr0 pre) evs).1, specChoice (mkH ws r.health) r.result = true := by
+  intro r hr
+  have h := specH_model ws hp0 rr0 pre [] evs
+  simp only [runEv] at h
+  unfold specH at h
+  simp only [Bool.and_eq_true, List.all_eq_true] at h
+  exact lookupOk_specChoice (h.1 r hr)
+
+/-- **wrr_health_spec_holds_on_model**: the executable predicate the check evaluates on the real balancer's lookups
+(`specH`: per lookup — picks are skipped only while unhealthy, a healthy pick is returned, the fallback only after
+`total` unhealthy picks and then a healthy host if there is one; per window of consecutive lookups, every start and
+length — the lag bound for all pairs of hosts healthy throughout, and service within `serveWindow`) holds of every
+model run, from every reachable state. -/
+theorem wrr_health_spec_holds_on_model (ws : List Nat) (hp0 : List Bool) (rr0 : Nat) (pre : List (Option Nat))
+    (before window : List Ev) :
+    specH ws (runEv ws (runEv ws hp0 (newStateH ws hp0 rr0 pre) before).2.1
+      (runEv ws hp0 (newStateH ws hp0 rr0 pre) before).2.2 window).1 = true :=
+  specH_model ws hp0 rr0 pre before window
+
+/-- weights 3, 2, 1; host 1 is unhealthy while the balancer is built and recovers before the first lookup. -/
+private def recovering (step : Bool → Bool × Bool) (drops : Bool) : List Rec :=
+  (runEv [3, 2, 1] [true, false, true] (newStateWith step drops [3, 2, 1] [true, false, true] 0 [])
+    (Ev.flip 1 true :: List.replicate 12 (Ev.look []))).1
+
+-- non-vacuity: with the regenerated `refresh` the recovered host 1 is served (4 of 12 lookups), host 0 six times
+example : ((recovering EdfRefresh.rangeStep EdfRefresh.dropsEmpty).map (·.result) ==
+      [some 0, some 1, some 0, some 2, some 1, some 0, some 0, some 1, some 0, some 2, some 1, some 0]) = true ∧
+    (recovering EdfRefresh.rangeStep EdfRefresh.dropsEmpty).all (fun r => r.healthyAt 1 && r.healthyAt 0) = true ∧
+    (serveWindow [3, 2, 1] 1 == 7) = true := by
+  decide +kernel
+
+/-- **filtered_refresh_starves** (negative witness, machine-checked): a `refresh` whose Range adds only the hosts that
+are healthy WHEN THE BALANCER IS BUILT (`fun healthy => (healthy, true)`, scheduler dropped when empty): host 1
+(weight 2), unhealthy at build time and healthy at every one of the 12 following lookups, is never picked — the
+scheduler holds hosts 0 and 2 only — and the executable predicate rejects the run (window bound between hosts 0 and 1,
+and no service within `serveWindow = 7` lookups); with NO host healthy at build time no scheduler exists and no lookup
+makes a weighted pick at all. -/
+theorem filtered_refresh_starves :
+    (recovering (fun healthy => (healthy, true)) true).all (fun r => r.result != some 1 && r.healthyAt 1) = true ∧
+    served (recovering (fun healthy => (healthy, true)) true) 0 = 9 ∧
+    specH [3, 2, 1] (recovering (fun healthy => (healthy, true)) true) = false ∧
+    specH [3, 2, 1] (recovering EdfRefresh.rangeStep EdfRefresh.dropsEmpty) = true ∧
+    specH [3, 2] ((runEv [3, 2] [false, false] (newStateWith (fun healthy => (healthy, true)) true [3, 2] [false, false] 0 [])
+      [Ev.flip 0 true, Ev.flip 1 true, Ev.look [], Ev.look []]).1) = false := by
+  decide +kernel
+
+end HealthChanges
 
 end MosnVerif.Props.C06
